@@ -15,16 +15,16 @@ import (
 // C04 — accepted language = documented grammar; trees faithful; every
 // truncation rejected; verdict independent of delivery.
 type C04 struct {
-	w      Workload
-	stats  *Stats
-	cases  []*Case
-	ncuts  int
-	nsent  int
-	nmut   int
-	nrand  int
+	w               Workload
+	stats           *Stats
+	cases           []*Case
+	ncuts           int
+	nsent           int
+	nmut            int
+	nrand           int
 	nlong, nreaderr int
-	render int // round-trip disagreements generator vs recogniser (harness self-check)
-	regen  string
+	render          int // round-trip disagreements generator vs recogniser (harness self-check)
+	regen           string
 }
 
 func NewC04(st *Stats) *C04 { return &C04{stats: st} }
@@ -507,17 +507,17 @@ func (p *C04) Shrinks(c *Case) []*Case {
 
 func (p *C04) Extra() map[string]any {
 	return map[string]any{
-		"sentences":                  p.nsent,
-		"cut_points_enumerated":      p.ncuts,
-		"exhaustive":                 false,
-		"exhaustive_over":            "every byte offset of every generated sentence of at most 400 bytes is a truncation case (complete over cut points per sentence, sampled over sentences)",
-		"token_mutations":            p.nmut,
-		"long_line_cases":            p.nlong,
-		"read_error_cases":           p.nreaderr,
-		"random_token_strings":       p.nrand,
+		"sentences":                             p.nsent,
+		"cut_points_enumerated":                 p.ncuts,
+		"exhaustive":                            false,
+		"exhaustive_over":                       "every byte offset of every generated sentence of at most 400 bytes is a truncation case (complete over cut points per sentence, sampled over sentences)",
+		"token_mutations":                       p.nmut,
+		"long_line_cases":                       p.nlong,
+		"read_error_cases":                      p.nreaderr,
+		"random_token_strings":                  p.nrand,
 		"generator_vs_recogniser_disagreements": p.render,
-		"goyacc_regeneration":        p.regen,
-		"not_covered":                "bounded-exhaustive enumeration of all strings (model checking); the goyacc clause is only checked by an auxiliary regenerate-and-compare step at build time, which is not simulation",
+		"goyacc_regeneration":                   p.regen,
+		"not_covered":                           "bounded-exhaustive enumeration of all strings (model checking); the goyacc clause is only checked by an auxiliary regenerate-and-compare step at build time, which is not simulation",
 	}
 }
 
